@@ -251,7 +251,7 @@ PROPS = {
     },
     'C12': {
         'source_transfer': ['TransferServer', 'TransferTty'],
-        'source_tie': ['Server', 'UbxParser', 'Tty'],
+        'source_tie': ['Server', 'UbxParser', 'Tty', 'GpsdTx'],
         'jobs': [{'component': 'srv', 'profile': 'mixed', 'quick': 2400, 'thorough': 4000, 'project': 'sent+same'},
                  {'component': 'frame', 'profile': 'threads', 'quick': 1, 'thorough': 1},
                  {'component': 'subitem', 'profile': 'grid', 'quick': 1, 'thorough': 1},
@@ -284,6 +284,6 @@ PROPS = {
         'trusted': ['bytes.decode / str.splitlines / json.loads are the real ones; the model is handed their per-line outcome'],
         'assumptions': ['partial: gpsd itself; termination of _enable() is not claimed'],
         'source_transfer': ['TransferGpsd'],
-        'source_tie': ['Gpsd'],
+        'source_tie': ['Gpsd', 'GpsdTx'],
     },
 }
